@@ -4,7 +4,7 @@ triggers: operator, identifiers, constants).  A validation that disappears from 
 preamble byte then reaches a shift amount, an allocation size or an index unchecked."""
 import json
 import os
-from astu import strip, walk, txt, short, functions_by, always_throws, stmts_of
+from astu import C, ctxt, gt_pair, eq_const, strip, walk, txt, short, functions_by, always_throws, stmts_of
 from vlib.core import ob, VERIF
 import triggers
 
